@@ -92,8 +92,11 @@ def bins(start, stop, fmt="gff", one=True):
     if start >= MAX_CHROM_SIZE or stop >= MAX_CHROM_SIZE:
         if one:
             return 1
-        else:
+        elif start >= MAX_CHROM_SIZE:
             return {1}
+        # a range that starts inside the binning scheme and runs past its end still overlaps every bin from its
+        # start up to the last one (bin 1, where everything beyond the scheme lives, is among them)
+        stop = MAX_CHROM_SIZE - 1
 
     # Jump to highest resolution bin that will fit these coords (depending on
     # whether we have a BED or GFF-style coordinate).
